@@ -76,7 +76,7 @@ def pb_explore(ctx, exe, scen, label, bound, cap, nproc=8):
     have (a changed implementation).  Each execution is a 'choices' job with a non-preemptive tail; the harness reports the
     enabled set before every step, from which the next wave of prefixes is derived."""
     results = []
-    frontier = [([], 0)]
+    frontier = [([], 0, 0)]
     wave = 0
     truncated = False
     while frontier:
@@ -85,16 +85,20 @@ def pb_explore(ctx, exe, scen, label, bound, cap, nproc=8):
             truncated = True
             break
         if len(frontier) > room:
+            # more candidates than budget: preemptions next to a lock operation or a write first (a switch between two plain
+            # loads of the same thread rarely separates anything), random within each class
             truncated = True
             random.Random(ctx.seed + wave).shuffle(frontier)
+            frontier.sort(key=lambda f: f[2])
             frontier = frontier[:room]
-        jobs = [{"id": "%s-pb%d_%d" % (label, wave, i), "mode": "choices", "choices": pref, "tail": "sticky", "trace_enabled": True} for i, (pref, _) in enumerate(frontier)]
+        jobs = [{"id": "%s-pb%d_%d" % (label, wave, i), "mode": "choices", "choices": f[0], "tail": "sticky", "trace_enabled": True} for i, f in enumerate(frontier)]
         meta = {j["id"]: f for j, f in zip(jobs, frontier)}
         res = run_jobs(ctx, exe, scen, jobs, "pb%s%d" % (label, wave), nproc=nproc)
         nxt = []
         for x in res:
-            pref, used = meta[x["id"]]
+            pref, used, _ = meta[x["id"]]
             ch, en = x["choices"], x.get("enabled", [])
+            kinds = x.pop("kinds", None) or []
             en_ = x.pop("enabled", None)
             if x.get("nonterm") or x.get("diverged"):
                 continue
@@ -104,7 +108,8 @@ def pb_explore(ctx, exe, scen, label, bound, cap, nproc=8):
                         continue
                     cost = 1 if (i > 0 and ch[i - 1] in en[i] and a != ch[i - 1]) else 0
                     if used + cost <= bound:
-                        nxt.append((ch[:i] + [a], used + cost))
+                        near = [k for k in (kinds[i - 1] if 0 < i <= len(kinds) else "", kinds[i] if i < len(kinds) else "") if k and not k.startswith(("Load", "CallStart"))]
+                        nxt.append((ch[:i] + [a], used + cost, 0 if near else 1))
         results += res
         frontier = nxt
         wave += 1
